@@ -18,11 +18,11 @@ FLOOR_CALLS = 1400
 
 # rules of one pack that are also necessary conditions of another property: (pack, rule prefixes, key filter, why)
 SHARED = {
-    "C01": [("C15", ("C15.S1", "C15.S3", "C15.S4", "C15.S5"), None, "the polygon that must contain the point is produced through the inverse face projection"),
+    "C01": [("C15", ("C15.S1", "C15.S3", "C15.S4", "C15.S5", "C15.S6"), None, "the polygon that must contain the point is produced through the inverse face projection"),
             ("C19", ("C19.A5",), None, "longitudes that differ by whole turns (and probes across the antimeridian) name the same point only if every wrap moves by the full period")],
-    "C02": [("C01", ("C01.R5",), None, "interior points map back only if containment is decided by the exact sign of the cross product"),
-            ("C15", ("C15.S1", "C15.S3", "C15.S4", "C15.S5"), None, "the reported centre and boundary come from the inverse face projection, the lookup from the forward one")],
-    "C04": [("C15", ("C15.S1", "C15.S3", "C15.S4", "C15.S5"), None, "cell areas are equal only if the boundary is unprojected with the matching spherical/squashed triangle and an accurate angle helper")],
+    "C02": [("C01", ("C01.R1", "C01.R2", "C01.R3", "C01.R4", "C01.R5"), None, "a point inside a cell's reported polygon maps back to that cell only if the lookup returns a cell of the asked resolution accepted by the exact containment test evaluated at the query point itself"),
+            ("C15", ("C15.S1", "C15.S3", "C15.S4", "C15.S5", "C15.S6"), None, "the reported centre and boundary come from the inverse face projection, the lookup from the forward one")],
+    "C04": [("C15", ("C15.S1", "C15.S3", "C15.S4", "C15.S5", "C15.S6"), None, "cell areas are equal only if the boundary is unprojected with the matching spherical/squashed triangle and an accurate angle helper")],
     "C06": [("C02", ("C02.R2",), None, "IDs keep their meaning only if lookup and geometry use the same quintant/segment relabelling"),
             ("C05", ("C05.R4",), None, "stored IDs keep their meaning only if the bit layout is the documented one"),
             ("C18", ("C18.D2", "C18.D3", "C18.D4", "C18.D5"), None, "the face frame, the nearest-face choice and the quintant relabelling define which ID a point gets"),
@@ -60,6 +60,7 @@ def main():
             desugar_combinators(fx)
     vocab = load_vocabulary(VERIF)
     ctx.inlined = inline_new_helpers(ctx.facts, vocab)
+    ctx.facts.spliced_helpers = {c_ for _p, c_ in ctx.inlined}
     if ctx.facts_release is not None:
         inline_new_helpers(ctx.facts_release, vocab)
     run = Run(prop, tier, LEVELS.get(prop, "other"))
